@@ -642,6 +642,14 @@ func init() {
 	I["zzverif.LockOrderCycle"] = func(m *Machine, fn *ssa.Function, args []Value) Value {
 		return smt.BoolC(m.LockOrderCycle())
 	}
+	I["zzverif.Concurrently"] = func(m *Machine, fn *ssa.Function, args []Value) Value {
+		m.effect("concurrently")
+		m.spawnLogical(args[0])
+		return nil
+	}
+	I["zzverif.Blocked"] = func(m *Machine, fn *ssa.Function, args []Value) Value {
+		return smt.BVC(64, uint64(m.blockedLogical()))
+	}
 	I["zzverif.Spawned"] = func(m *Machine, fn *ssa.Function, args []Value) Value {
 		return smt.BVC(64, uint64(m.spawned))
 	}
